@@ -204,6 +204,23 @@ impl<'a> Gen<'a> {
         }
     }
 
+    /// an operand of varied syntactic shape: identifier, call, cast, member, subscript, parenthesis, literal
+    fn operand(&mut self, d: usize) -> String {
+        let a = self.ident();
+        let b = self.ident();
+        match self.rng.below(10) {
+            0 | 1 => a,
+            2 => format!("{}.{}({})", a, self.pick(&["ownerOf", "get", "balanceOf"]), b),
+            3 => format!("address({})", a),
+            4 => format!("{}.{}", a, self.pick(&["owner", "x", "token"])),
+            5 => format!("{}[{}]", a, b),
+            6 => format!("({})", a),
+            7 => format!("{}({})", self.pick(&["f", "IERC20", "payable", "uint160"]), b),
+            8 => self.expr(d),
+            _ => self.number(),
+        }
+    }
+
     // ------------------------------------------------------------------ detector-directed snippets
     fn snippet(&mut self, depth: usize) -> String {
         let d = depth.saturating_sub(1);
@@ -218,12 +235,12 @@ impl<'a> Gen<'a> {
             3 => format!("payable({}).balance", a),
             4 => "address(this).balanceOf".into(),
             // address_zero
-            5 => format!("{} == address(0)", a),
-            6 => format!("address(0) != {}", a),
+            5 => format!("{} {} address(0)", self.operand(d), self.pick(&["==", "!="])),
+            6 => format!("address(0) {} {}", self.pick(&["==", "!="]), self.operand(d)),
             7 => format!("{} == address({})", a, self.pick(&["1", "0x0", "00", "0e0", "x", "0, 1", ""])),
             8 => format!("{} != payable(0)", a),
             // bool_equals_bool
-            9 => format!("{} == {}", a, self.pick(&["true", "false"])),
+            9 => format!("{} {} {}", self.operand(d), self.pick(&["==", "!="]), self.pick(&["true", "false"])),
             10 => format!("{} != {}", self.pick(&["true", "false"]), self.expr(d)),
             // assign_update_array_value
             11 => {
@@ -265,14 +282,28 @@ impl<'a> Gen<'a> {
             32 => format!("{} / {}", n, self.expr(d)),
             33 => format!("{} / {}", self.expr(d), n),
             // keccak
-            34 => format!("keccak256(abi.encodePacked({}, {}))", a, b),
+            34 => match self.rng.below(4) {
+                0 => format!("keccak256(abi.encodePacked({}, {}))", a, b),
+                1 => format!("keccak256(bytes.concat(keccak256(abi.encodePacked({}, {}))))", a, b),
+                2 => format!("keccak256(abi.encodePacked(keccak256(abi.encodePacked({})), {}))", a, self.operand(d)),
+                _ => format!("keccak256(abi.encode({}))", self.operand(d)),
+            },
             35 => format!("{}.keccak256({})", a, b),
             36 => format!("sha256({})", a),
             // safemath
             37 => format!("{}.{}({})", self.expr(d), self.pick(&["add", "sub", "mul", "div", "mod", "addr"]), self.expr(d)),
             // erc20
-            38 => format!("{}.{}({}, {})", a, self.pick(&["transfer", "transferFrom", "approve", "safeTransfer", "transfer_"]), b, n),
-            39 => format!("{}.transfer", a),
+            38 => {
+                let m = self.pick(&["transfer", "transferFrom", "approve", "safeTransfer", "transfer_"]);
+                let recv = self.operand(d);
+                match self.rng.below(5) {
+                    0 => format!("{}.{}{{gas: 60000}}({}, {})", recv, m, b, n),
+                    1 => format!("{}.{}({{to: {}, amount: {}}})", recv, m, b, n),
+                    2 => format!("{}.{}.selector", recv, m),
+                    _ => format!("{}.{}({}, {})", recv, m, b, n),
+                }
+            }
+            39 => format!("{}.transfer", self.operand(d)),
             // divide before multiply
             40 => format!("{} / {} * {}", a, b, n),
             41 => format!("({} / {}) * {} * {}", a, b, n, a),
@@ -472,6 +503,26 @@ impl<'a> Gen<'a> {
                 let s = format!("do {} while ({});", self.stmt(d), self.expr(depth));
                 self.in_loop -= 1;
                 s
+            }
+            18..=21 if self.pct(25) => {
+                // the canonical cache_array_length loop, with bodies that push / pop / nest another loop
+                let arr = self.ident();
+                let other = self.ident();
+                let body = match self.rng.below(6) {
+                    0 => format!("{{ {}.push({}[i]); }}", other, arr),
+                    1 => format!("{{ {}.pop(); }}", arr),
+                    2 => format!("{{ if ({}[i] > 1) {{ {}.push(i); }} }}", arr, other),
+                    3 => format!("{{ for (uint256 j = 0; j < {}.length; ++j) {{ {} += 1; }} }}", other, other),
+                    4 => ";".to_string(),
+                    _ => format!("{{ {} }}", self.stmt(d)),
+                };
+                let cond = match self.rng.below(4) {
+                    0 => format!("i < {}.length", arr),
+                    1 => format!("{}.length > i", arr),
+                    2 => format!("i < {}.length && i < {}.length", arr, other),
+                    _ => format!("i <= {}.length - 1", arr),
+                };
+                format!("for (uint256 i = 0; {}; {}) {}", cond, self.pick(&["i++", "++i", "i += 1"]), body)
             }
             18..=21 => {
                 let init = if self.pct(80) { self.simple_stmt(d) } else { String::new() };
@@ -831,4 +882,186 @@ pub fn random_file(seed: u64, cfg: Cfg) -> String {
     let mut rng = Rng::new(seed);
     let mut g = Gen::new(&mut rng, cfg);
     g.file()
+}
+
+/// A small, well-formed "scenario" file aimed at the table-based detectors (constant / immutable / sstore /
+/// memory_to_calldata / declaration-level ones): unique state-variable names, every combination of where a
+/// variable is written (constructor, ordinary function, modifier, receive, fallback, another contract of the file,
+/// a derived contract) and how (plain, compound, increment, through one or two indices, tuple), attribute orders,
+/// visibilities, function kinds.  Unlike `random_file`, almost everything in it is semantically plausible, so the
+/// oracles' hypotheses (unique names, no shadowing) hold and their verdicts apply.
+pub fn scenario_file(seed: u64) -> String {
+    let mut rng = Rng::new(seed);
+    let r = &mut rng;
+    let pragma = [
+        "pragma solidity 0.8.17;", "pragma solidity ^0.8.4;", "pragma solidity 0.7.6;", "pragma solidity >=0.8.0 <0.9.0;", "pragma solidity 0.8.0;",
+        "pragma solidity >=0.6.0 ^0.8.3;", "pragma solidity ^0.8.0;", "pragma solidity 0.8.3;", "pragma solidity 0.8.5;", "pragma solidity ^0.9.0;",
+        "pragma solidity 0.10.2;", "pragma solidity 1.0.0;", "pragma solidity 0.7.99;", "pragma solidity =0.8.4;",
+    ][r.below(14)];
+    let tys = ["uint256", "address", "bool", "uint128", "bytes32", "uint8", "int64", "address payable", "string", "uint256[]", "mapping(address => uint256)", "IERC20", "bytes"];
+    let n = 3 + r.below(4);
+    let mut vars: Vec<(String, &str)> = vec![];
+    let mut decls = String::new();
+    for i in 0..n {
+        let ty = tys[r.below(tys.len())];
+        let name = format!("{}{}", ["v", "_s", "total", "fee_", "_w"][r.below(5)], i);
+        let mut attrs: Vec<&str> = vec![];
+        if r.chance(3, 4) {
+            attrs.push(["public", "private", "internal"][r.below(3)]);
+        }
+        match r.below(8) {
+            0 => attrs.push("constant"),
+            1 => attrs.push("immutable"),
+            _ => {}
+        }
+        r.shuffle(&mut attrs);
+        let elementary_value = !ty.contains('[') && !ty.contains("mapping") && ty != "string" && ty != "bytes" && ty != "IERC20";
+        let init = if attrs.contains(&"constant") || (r.chance(1, 4) && elementary_value) {
+            match ty {
+                "address" | "address payable" => " = address(0)",
+                "bool" => " = true",
+                "bytes32" => " = bytes32(0)",
+                _ if elementary_value => " = 1",
+                _ => "",
+            }
+        } else {
+            ""
+        };
+        decls.push_str(&format!("  {} {} {}{};\n", ty, attrs.join(" "), name, init));
+        vars.push((name, ty));
+    }
+    let rhs = |r: &mut Rng, ty: &str| -> String {
+        match r.below(6) {
+            0 if ty == "string" || ty == "bytes" => "\"text\"".to_string(),
+            1 => "abi.decode(data, (uint256))".to_string(),
+            2 => "bytes(\"x\")".to_string(),
+            3 => "x + 1".to_string(),
+            _ => "x".to_string(),
+        }
+    };
+    let write = |r: &mut Rng, v: &str| -> String {
+        match r.below(9) {
+            0 => format!("{} = x;", v),
+            1 => format!("{} += 1;", v),
+            2 => format!("{}++;", v),
+            3 => format!("--{};", v),
+            4 => format!("{}[0] = 1;", v),
+            5 => format!("{}[0][1] = 1;", v),
+            6 => format!("({}, x) = (1, 2);", v),
+            7 => format!("y = ({} = 3);", v),
+            _ => format!("delete {};", v),
+        }
+    };
+    let mut body = String::new();
+    // constructor(s)
+    let mut ctor = String::new();
+    for (v, ty) in &vars {
+        if r.chance(1, 2) {
+            ctor.push_str(&format!(" {} = {};", v, rhs(r, ty)));
+        }
+    }
+    let ctor_vis = ["", "public ", "internal ", "payable "][r.below(4)];
+    body.push_str(&format!("  constructor(uint256 x, bytes memory data) {}{{{} }}\n", ctor_vis, ctor));
+    // writers in various kinds of functions
+    let kinds = ["function", "modifier", "receive", "fallback", "function_internal", "function_private", "free"];
+    let mut free_fns = String::new();
+    for (v, _) in &vars {
+        if r.chance(2, 5) {
+            let w = write(r, v);
+            match kinds[r.below(kinds.len())] {
+                "function" => body.push_str(&format!("  function set_{}(uint256 x, uint256 y) {} {{ {} }}\n", v, ["public", "external", "external payable", "public onlyOwner"][r.below(4)], w)),
+                "modifier" => body.push_str(&format!("  modifier m_{}(uint256 x) {{ uint256 y; {} _; }}\n", v, w)),
+                "receive" => body.push_str(&format!("  receive() external payable {{ uint256 x; uint256 y; {} }}\n", w)),
+                "fallback" => body.push_str(&format!("  fallback() external {{ uint256 x; uint256 y; {} }}\n", w)),
+                "function_internal" => body.push_str(&format!("  function _i_{}(uint256 x, uint256 y) internal {{ {} }}\n", v, w)),
+                "function_private" => body.push_str(&format!("  function p_{}(uint256 x, uint256 y) private {{ {} }}\n", v, w)),
+                _ => free_fns.push_str(&format!("function free_{}(uint256 x) pure returns (uint256) {{ return x; }}\n", v)),
+            }
+        }
+    }
+    // functions with memory parameters, assigned or not
+    for k in 0..r.below(3) {
+        let pty = ["uint256[] memory", "string memory", "bytes memory", "uint256[][] memory", "uint256[] calldata", "uint256"][r.below(6)];
+        let unnamed = r.chance(1, 8);
+        let pname = if unnamed { String::new() } else { format!("arg{}", k) };
+        let assign = if unnamed {
+            String::new()
+        } else {
+            match r.below(6) {
+                0 => format!("{} = {};", pname, pname),
+                1 => format!("{}[0] = 1;", pname),
+                2 => format!("{}[0][1] = 2;", pname),
+                3 => format!("{}[0] += 2;", pname),
+                _ => String::new(),
+            }
+        };
+        let vis = ["public", "external", "internal", "private", "public view", "external payable"][r.below(6)];
+        let bodyless = r.chance(1, 10);
+        if bodyless {
+            body.push_str(&format!("  function g{}({} {}) {} virtual;\n", k, pty, pname, vis));
+        } else {
+            body.push_str(&format!("  function g{}({} {}) {} {{ {} }}\n", k, pty, pname, vis, assign));
+        }
+    }
+    // the same function name with a selfdestruct in two contracts of the file, each with its own protection
+    let twin_kill = r.chance(1, 5);
+    let kill_variant = |r: &mut Rng, owner: &str| -> String {
+        let guard = ["", "onlyOwner ", "nonReentrant ", "nonReentrant onlyOwner "][r.below(4)];
+        let pre = match r.below(4) {
+            0 => format!("require(msg.sender == {});", owner),
+            1 => format!("if (msg.sender != {}) revert();", owner),
+            _ => String::new(),
+        };
+        format!("  address payable {};\n  function kill() {} {}{{ {} selfdestruct({}); }}\n", owner, ["external", "public"][r.below(2)], guard, pre, owner)
+    };
+    if twin_kill {
+        body.push_str(&kill_variant(r, "owner_"));
+    }
+    // a selfdestruct in some flavour
+    if !twin_kill && r.chance(1, 3) {
+        let guard = ["", "onlyOwner ", "nonReentrant onlyOwner ", "nonReentrant "][r.below(4)];
+        let pre = ["", "require(msg.sender == owner_);", "require(owner_ == msg.sender, \"no\");", "if (msg.sender != owner_) revert();"][r.below(4)];
+        let call = ["selfdestruct(payable(msg.sender));", "selfdestruct(payable(owner_));", "suicide(owner_);"][r.below(3)];
+        let kind = ["function kill() external", "function kill() public", "function _kill() internal", "fallback() external", "receive() external payable", "function kill() private"][r.below(6)];
+        body.push_str(&format!("  address payable owner_;\n  {} {}{{ {} {} }}\n", kind, if kind.starts_with("function") { guard } else { "" }, pre, call));
+    }
+    // version-gated material: SafeMath attached (or not) and used, require with short / long / multi-part messages
+    let mut using_line = String::new();
+    if r.chance(1, 2) {
+        using_line = format!("  using {} for uint256;\n", ["SafeMath", "SafeMath", "Math", "SafeMathExt"][r.below(4)]);
+        body.push_str(&format!(
+            "  function calc(uint256 a, uint256 b) public pure returns (uint256) {{ return a.{}(b).{}(2); }}\n",
+            ["add", "sub", "mul", "div"][r.below(4)],
+            ["add", "mod", "mul", "max"][r.below(4)]
+        ));
+    }
+    if r.chance(1, 2) {
+        let msg = ["\"short\"", "\"exactly thirty-two bytes long...\"", "\"this message is certainly longer than thirty-two bytes\"", "\"ab\" \"cd\"", "\"sixteen bytes...\" \"sixteen bytes...\""][r.below(5)];
+        body.push_str(&format!("  function chk(uint256 a) public pure {{ require(a > 1, {}); require(a > 2 && a < 9, {}); }}\n", msg, msg));
+    }
+    let kind = ["contract", "abstract contract", "contract", "library"][r.below(4)];
+    let mut out = format!("{}\n{}{} Main {{\n{}{}{}}}\n", pragma, free_fns, kind, using_line, decls, body);
+    // a second contract of the file that writes (or only reads) variables of the first: derived or unrelated
+    if twin_kill || r.chance(1, 2) {
+        let derived = !twin_kill && r.chance(1, 2);
+        let mut b2 = String::new();
+        for (v, _) in &vars {
+            if r.chance(1, 3) {
+                b2.push_str(&format!("  function other_{}(uint256 x, uint256 y) public {{ {} }}\n", v, write(r, v)));
+            }
+        }
+        if r.chance(1, 2) {
+            b2.push_str("  uint256 own0;\n  constructor() { own0 = 1; }\n");
+        }
+        if twin_kill {
+            b2.push_str(&kill_variant(r, "boss_"));
+        } else if r.chance(1, 2) {
+            // a function with the same name as one of the first contract, with its own protection
+            let guard = ["", "onlyOwner ", "nonReentrant "][r.below(3)];
+            let pre = ["", "require(msg.sender == boss_);"][r.below(2)];
+            b2.push_str(&format!("  address payable boss_;\n  function kill() external {}{{ {} selfdestruct(boss_); }}\n", guard, pre));
+        }
+        out.push_str(&format!("contract Second{} {{\n{}}}\n", if derived { " is Main" } else { "" }, b2));
+    }
+    out
 }
